@@ -12,7 +12,8 @@ Pack = Opaque("Pack")
 SPEC = Obj("CombinatorialSpecification")
 REG.classes["CombinatorialSpecification"].fields.update({"rules_dict": Dict(CombClass, Obj("AbstractRule"))})
 REG.classes["AbstractRule"].fields.update({"rules": Seq(Obj("AbstractRule"))})     # members of an equivalence path rule
-AL = {"CombClass": CombClass}
+from .class_db import ClassKey
+AL = {"CombClass": CombClass, "ClassKey": ClassKey}
 
 spec_fn("has_pack", _ufn("has_pack", Bool))          # the verification strategy of this rule supplies a pack (A2)
 spec_fn("pack_of", _ufn("pack_of", Pack))
@@ -57,3 +58,30 @@ contract(F, "CombinatorialSpecification.expand_verified", props=["C19"], lenient
          modifies=[],
          notes="the only normal exit is exhaustion of the expandable classes of the CURRENT specification; the original "
                "specification is never modified (frame)")
+
+# ---- the body of expand_comb_class: how the inner searcher is configured
+FS = "comb_spec_searcher/comb_spec_searcher.py"
+contract(FS, "CombinatorialSpecificationSearcher.__init__", props=["C19"], verify=False, aliases=AL,
+         trusted_reason="constructor summary: stores its arguments (keyword defaults as in the source signature)",
+         params={"self": Obj("CombinatorialSpecificationSearcher"), "start_class": CombClass, "strategy_pack": Pack,
+                 "ruledb": Opt(Obj("RuleDBAbstract")), "expand_verified": Bool, "debug": Bool},
+         ensures=["self.expand_verified == expand_verified", "self.start_class == start_class"],
+         modifies=["*self"], self_invariant=False)
+contract(F, "CombinatorialSpecification.expand_comb_class#body", source="CombinatorialSpecification.expand_comb_class",
+         props=["C19"], lenient=True, aliases=AL, isinstance_map=_ISMAP,
+         pure_calls=["get_label", "get_comb_class", "add", "try_verify"],
+         params={"self": SPEC, "comb_class": CombClass, "pack": Pack, "reverse": Bool, "continue_expanding_verified": Bool,
+                 "max_expansion_time": Opt(Opaque("Float"))},
+         returns=SPEC, may_raise=["SpecificationNotFound", "ExceededMaxtimeError", "KeyError", "StrategyDoesNotApply",
+                                  "UserCodeError", "AssertionError"],
+         # the inner search is rooted at the specification's root, uses the offered pack, and keeps (or not) working on
+         # verified classes exactly as the caller asked
+         call_requires={"CombinatorialSpecificationSearcher.__init__": [
+             "start_class == caller_self.root", "strategy_pack == pack", "expand_verified == continue_expanding_verified",
+             "not debug"]},
+         # frame: only state of the kinds owned by the inner searcher (its rule database and class database); that these
+         # are the FRESH objects of the inner searcher and not the receiver's is not proved here
+         modifies=["all:Obj('RuleDBAbstract')", "all:List(ClassKey)", "all:List(Opt(Bool))", "all:Dict(ClassKey, Int)",
+                   "all:Obj('CombinatorialSpecificationSearcher')", "all:Obj('CombinatorialSpecification')",
+                   "all:Obj('AbstractRule')", "all:List(Opaque('Terms'))"],
+         notes="configuration of the inner searcher; the search itself is C01/C04/C05")
